@@ -32,12 +32,16 @@ func paramEntries() []*entry {
 			}),
 		}},
 		{name: "rlwe.ParametersLiteral", heavy: true, vals: []value{
-			V("primes", func(w *world, g *gen) any { return &rlwe.ParametersLiteral{LogN: 4, Q: qa()[:3], P: qa()[3:], NTTFlag: true} }),
+			V("primes", func(w *world, g *gen) any {
+				return &rlwe.ParametersLiteral{LogN: 4, Q: qa()[:3], P: qa()[3:], NTTFlag: true}
+			}),
 			V("logs+everything", func(w *world, g *gen) any {
 				return &rlwe.ParametersLiteral{LogN: 4, LogQ: []int{30, 31}, LogP: []int{32}, Xs: ring.Ternary{P: 0.5}, Xe: ring.DiscreteGaussian{Sigma: 2.5, Bound: 15},
 					RingType: ring.ConjugateInvariant, DefaultScale: rlwe.NewScale(1 << 20)}
 			}),
-			V("logNthRoot", func(w *world, g *gen) any { return &rlwe.ParametersLiteral{LogN: 4, LogNthRoot: 7, LogQ: []int{30}, NTTFlag: true} }),
+			V("logNthRoot", func(w *world, g *gen) any {
+				return &rlwe.ParametersLiteral{LogN: 4, LogNthRoot: 7, LogQ: []int{30}, NTTFlag: true}
+			}),
 			V("minimal", func(w *world, g *gen) any { return &rlwe.ParametersLiteral{LogN: 5, Q: uni.Primes(5, 45, 1)} }),
 		}},
 		{name: "bgv.Parameters", heavy: true, vals: []value{
@@ -52,11 +56,15 @@ func paramEntries() []*entry {
 			}),
 		}},
 		{name: "bgv.ParametersLiteral", heavy: true, vals: []value{
-			V("primes", func(w *world, g *gen) any { return &bgv.ParametersLiteral{LogN: 4, Q: qa()[:3], P: qa()[3:], PlaintextModulus: 97} }),
+			V("primes", func(w *world, g *gen) any {
+				return &bgv.ParametersLiteral{LogN: 4, Q: qa()[:3], P: qa()[3:], PlaintextModulus: 97}
+			}),
 			V("logs+dist", func(w *world, g *gen) any {
 				return &bgv.ParametersLiteral{LogN: 4, LogNthRoot: 6, LogQ: []int{30, 31}, LogP: []int{32}, Xs: ring.Ternary{H: 4}, Xe: ring.DiscreteGaussian{Sigma: 2.5, Bound: 15}, PlaintextModulus: 65537}
 			}),
-			V("minimal", func(w *world, g *gen) any { return &bgv.ParametersLiteral{LogN: 5, Q: uni.Primes(5, 45, 1), PlaintextModulus: 193} }),
+			V("minimal", func(w *world, g *gen) any {
+				return &bgv.ParametersLiteral{LogN: 5, Q: uni.Primes(5, 45, 1), PlaintextModulus: 193}
+			}),
 		}},
 		{name: "ckks.Parameters", heavy: true, vals: []value{
 			V("A-scale20", func(w *world, g *gen) any { p := w.ckksA; return &p }),
@@ -70,12 +78,16 @@ func paramEntries() []*entry {
 			}),
 		}},
 		{name: "ckks.ParametersLiteral", heavy: true, vals: []value{
-			V("primes", func(w *world, g *gen) any { return &ckks.ParametersLiteral{LogN: 4, Q: qa()[:3], P: qa()[3:], LogDefaultScale: 20} }),
+			V("primes", func(w *world, g *gen) any {
+				return &ckks.ParametersLiteral{LogN: 4, Q: qa()[:3], P: qa()[3:], LogDefaultScale: 20}
+			}),
 			V("logs+dist+CI", func(w *world, g *gen) any {
 				return &ckks.ParametersLiteral{LogN: 4, LogNthRoot: 7, LogQ: []int{30, 31}, LogP: []int{32}, Xs: ring.Ternary{P: 0.5}, Xe: ring.DiscreteGaussian{Sigma: 2.5, Bound: 15},
 					RingType: ring.ConjugateInvariant, LogDefaultScale: 25}
 			}),
-			V("minimal", func(w *world, g *gen) any { return &ckks.ParametersLiteral{LogN: 5, Q: uni.Primes(5, 45, 1), LogDefaultScale: 30} }),
+			V("minimal", func(w *world, g *gen) any {
+				return &ckks.ParametersLiteral{LogN: 5, Q: uni.Primes(5, 45, 1), LogDefaultScale: 30}
+			}),
 		}},
 		{name: "ring.Ring", heavy: true, vals: []value{
 			V("N16-3primes", func(w *world, g *gen) any { return must(ring.NewRing(16, qa()[:3])) }),
